@@ -321,6 +321,9 @@ def _op_step(o, w, ids, root_id, obs):
         if o.get('task'):
             tid = ids['tk'].get(o['task'])
             cands = [mid for mid in cands if tid and tid in json.dumps(w.msgs[mid].kwargs, default=str)]
+        if o.get('wf_action'):
+            # ... only results of sub-workflows (sent to the engine by the child's post-commit operation)
+            cands = [mid for mid in cands if str(w.msgs[mid].kwargs.get('wf_action')).lower() in ('true', '1')]
         if not cands:
             return None
         return ('dup', cands[o.get('pick', 0) % len(cands)])
